@@ -1,7 +1,8 @@
 (* Proofs about Model/Dups.v (property C04), part 2: the duplicate check
    itself -- exception freedom, invariance under sibling order and spelling
-   for the repaired variant, completeness, and the refutations for the code
-   as it is. *)
+   for the code as it is (mode Fx: fix commits 7597eca, 2492808, 3e47c8c are in /repo),
+   completeness, and -- as the record of the repaired defects -- the refutations
+   for the behaviour before those commits (mode Orig). *)
 From Coq Require Import List NArith Arith Bool Lia Permutation Sorted.
 From HV Require Import Base.Res Base.Str Model.Dups Proofs.DupsProofs.
 Import ListNotations.
@@ -41,32 +42,55 @@ Proof.
     destruct (IHx Hx) as [n En]. exists (S n). cbn [first_leaf_steps]. rewrite En. reflexivity.
 Qed.
 
+Lemma subject_ok_noempty m c : noempty c = true -> exists x, repeated_group_subject m c = Ok x.
+Proof.
+  intro H. unfold repeated_group_subject. destruct (m_total m).
+  - destruct (walk_down c) as [n b]. eexists. reflexivity.
+  - destruct (first_leaf_ok _ H) as [n En]. rewrite En. eexists. reflexivity.
+Qed.
+
+(* since fix commit 3e47c8c the walk to the first tag cannot raise *)
+Lemma subject_ok_total m c : m_total m = true -> exists x, repeated_group_subject m c = Ok x.
+Proof.
+  intro H. unfold repeated_group_subject. rewrite H.
+  destruct (walk_down c) as [n b]. eexists. reflexivity.
+Qed.
+
 Lemma dup_loop_ok m l :
-  Forall (fun c => noempty c = true -> dup_rec m c = Ok (dup_p m c)) l ->
-  forallb noempty l = true ->
+  Forall (fun c => dup_rec m c = Ok (dup_p m c)) l ->
+  Forall (fun c => exists x, repeated_group_subject m c = Ok x) l ->
   forall prev, dup_loop m prev (map (fun c => (c, dup_rec m c)) l)
                = Ok (dup_loop_p m prev (map (fun c => (c, dup_p m c)) l)).
 Proof.
-  induction 1 as [|c l Hc _ IH]; intros Hne prev; [reflexivity|].
-  cbn [forallb] in Hne. apply andb_true_iff in Hne as [Hn Hne].
-  cbn [map dup_loop dup_loop_p]. rewrite (Hc Hn). rewrite (IH Hne (Some c)).
+  induction 1 as [|c l Hc _ IH]; intros Hs prev; [reflexivity|].
+  inversion Hs as [|? ? Hsc Hsl]; subst.
+  cbn [map dup_loop dup_loop_p]. rewrite Hc. rewrite (IH Hsl (Some c)).
   destruct (veq_prev m c prev); [|reflexivity].
   destruct c as [a|lc]; [reflexivity|].
-  destruct (first_leaf_ok _ Hn) as [n En]. rewrite En. reflexivity.
+  destruct Hsc as [x Ex]. rewrite Ex. reflexivity.
 Qed.
 
-(* on input without empty groups the check never raises *)
+(* behaviour before fix commit 3e47c8c: on input without empty groups the check does not raise *)
 Lemma dup_rec_pure m v : noempty v = true -> dup_rec m v = Ok (dup_p m v).
 Proof.
   induction v as [a|l IH] using view_ind2; intro H; [reflexivity|].
   cbn [dup_rec dup_p]. cbn [noempty] in H. apply andb_true_iff in H as [_ H].
-  apply dup_loop_ok; assumption.
+  rewrite forallb_forall in H. rewrite Forall_forall in IH.
+  apply dup_loop_ok; apply Forall_forall; intros c Hc; [apply IH; auto|apply subject_ok_noempty; auto].
 Qed.
 
 Lemma dup_rec_pure_top m l : forallb noempty l = true -> dup_rec m (VL l) = Ok (dup_p m (VL l)).
 Proof.
-  intro H. cbn [dup_rec dup_p]. apply dup_loop_ok; [|exact H].
-  apply Forall_forall. intros c _. apply dup_rec_pure.
+  intro H. cbn [dup_rec dup_p]. rewrite forallb_forall in H.
+  apply dup_loop_ok; apply Forall_forall; intros c Hc; [apply dup_rec_pure; auto|apply subject_ok_noempty; auto].
+Qed.
+
+(* the code as it is (since 3e47c8c): the duplicate check is total *)
+Lemma dup_rec_total m v : m_total m = true -> dup_rec m v = Ok (dup_p m v).
+Proof.
+  intro Ht. induction v as [a|l IH] using view_ind2; [reflexivity|].
+  cbn [dup_rec dup_p]. apply dup_loop_ok; [exact IH|].
+  apply Forall_forall. intros c _. apply subject_ok_total. exact Ht.
 Qed.
 
 Lemma null_perm {A} (l l' : list A) : Permutation l l' -> null l = null l'.
@@ -97,8 +121,12 @@ Lemma check_dup_ok m top : forallb noempty_t top = true ->
   check_for_duplicate_groups m top = Ok (dup_p m (VL (sorted_view m top))).
 Proof. intro H. apply dup_rec_pure_top. apply noempty_sorted_view. exact H. Qed.
 
+Lemma check_dup_total m top : m_total m = true ->
+  check_for_duplicate_groups m top = Ok (dup_p m (VL (sorted_view m top))).
+Proof. intro H. apply dup_rec_total. exact H. Qed.
+
 (* ------------------------------------------------------------------ *)
-(* repaired variant: equality and the issue list only see canon        *)
+(* the code as it is: equality and the issue list only see canon       *)
 (* ------------------------------------------------------------------ *)
 
 Fixpoint ceq (c d : cview) : bool :=
@@ -151,7 +179,7 @@ Qed.
 
 Definition dup_issues_p (m : mode) (top : list tree) : list kind := dup_p m (VL (sorted_view m top)).
 
-(* THEOREM (repaired variant): the reported repeats do not depend on the order
+(* THEOREM (the code as it is): the reported repeats do not depend on the order
    of siblings at any level *)
 Lemma dup_perm_fixed top top' :
   PermForest top top' -> forallb wft top = true -> dup_issues_p Fx top = dup_issues_p Fx top'.
@@ -175,17 +203,16 @@ Proof.
 Qed.
 
 Lemma check_dup_perm_fixed top top' :
-  PermForest top top' -> forallb wft top = true -> forallb noempty_t top = true ->
+  PermForest top top' -> forallb wft top = true ->
   exists iss, check_for_duplicate_groups Fx top = Ok iss /\
               check_for_duplicate_groups Fx top' = Ok iss.
 Proof.
-  intros Hp Hw Hn. exists (dup_issues_p Fx top). split.
-  - apply check_dup_ok. exact Hn.
-  - rewrite (dup_perm_fixed _ _ Hp Hw). apply check_dup_ok.
-    rewrite <- (proj1 (proj2 noempty_perm_mut _ _ Hp)). exact Hn.
+  intros Hp Hw. exists (dup_issues_p Fx top). split.
+  - apply check_dup_total. reflexivity.
+  - rewrite (dup_perm_fixed _ _ Hp Hw). apply check_dup_total. reflexivity.
 Qed.
 
-(* ---- spelling: the repaired check only looks at folded short forms ---- *)
+(* ---- spelling: the check only looks at folded short forms ---- *)
 
 Definition strip_tag (a : tag) : tag :=
   mkTag [] (t_shortf a) [] (t_tg a) (t_tl a) (t_base a) (t_basef a) (t_uniq a) (t_req a) (t_def a).
@@ -231,7 +258,7 @@ Proof.
 Qed.
 
 (* ------------------------------------------------------------------ *)
-(* completeness of the repaired variant                                *)
+(* completeness (the code as it is)                                    *)
 (* ------------------------------------------------------------------ *)
 
 Section Adj.
@@ -273,13 +300,12 @@ Section Adj.
 End Adj.
 
 Lemma dup_loop_p_hit m pre v w post : veq m w v = true ->
-  forall prev, dup_loop_p m prev (map (fun c => (c, dup_p m c)) (pre ++ v :: w :: post)) <> [].
+  forall prev, In (rep_kind w) (dup_loop_p m prev (map (fun c => (c, dup_p m c)) (pre ++ v :: w :: post))).
 Proof.
   intro H. induction pre as [|x pre IH]; intro prev.
-  - cbn [app map dup_loop_p veq_prev]. rewrite H. intro E.
-    apply app_eq_nil in E as [_ E]. apply app_eq_nil in E as [_ E]. discriminate.
-  - cbn [app map dup_loop_p]. intro E.
-    apply app_eq_nil in E as [_ E]. apply app_eq_nil in E as [_ E]. exact (IH _ E).
+  - cbn [app map dup_loop_p veq_prev]. rewrite H.
+    apply in_or_app. right. apply in_or_app. right. left. reflexivity.
+  - cbn [app map dup_loop_p]. apply in_or_app. right. apply in_or_app. right. apply IH.
 Qed.
 
 (* the list the second (canonical) sort works on, with its keys *)
@@ -317,28 +343,33 @@ Lemma sorted_part_hit top (f : str * (str * view) -> bool) :
   ~ NoDup (map fst (filter f (keyedF top))) ->
   exists pre v w post,
     map (fun q => snd (snd q)) (sort_k (filter f (keyedF top))) = pre ++ v :: w :: post
-    /\ veq Fx w v = true.
+    /\ veq Fx w v = true /\ (exists q, f q = true /\ snd (snd q) = w).
 Proof.
   intros Hw Hnd.
   destruct (adj_eq_k (sort_k (filter f (keyedF top)))) eqn:Ha.
   - destruct (adj_true_split _ Ha) as (s1 & p & q & s2 & E & Ek).
-    exists (map (fun q => snd (snd q)) s1), (snd (snd p)), (snd (snd q)), (map (fun q => snd (snd q)) s2). split.
+    exists (map (fun q => snd (snd q)) s1), (snd (snd p)), (snd (snd q)), (map (fun q => snd (snd q)) s2).
+    assert (Hin : forall x, In x (sort_k (filter f (keyedF top))) -> In x (keyedF top) /\ f x = true).
+    { intros x Hx. apply (Permutation_in _ (sort_k_perm _)) in Hx. apply filter_In in Hx. tauto. }
+    assert (Hq : In q (sort_k (filter f (keyedF top)))) by (rewrite E; apply in_or_app; right; simpl; auto).
+    assert (Hp : In p (sort_k (filter f (keyedF top)))) by (rewrite E; apply in_or_app; right; simpl; auto).
+    split; [|split].
     + rewrite E, map_app. reflexivity.
     + rewrite veq_ceq.
-      assert (Hin : forall x, In x (sort_k (filter f (keyedF top))) -> In x (keyedF top)).
-      { intros x Hx. apply (Permutation_in _ (sort_k_perm _)) in Hx. apply filter_In in Hx. tauto. }
-      rewrite (keyedF_inj top Hw q p); [apply ceq_refl| | |congruence];
-        apply Hin; rewrite E; apply in_or_app; right; simpl; auto.
+      rewrite (keyedF_inj top Hw q p); [apply ceq_refl| | |congruence]; apply Hin; assumption.
+    + exists q. split; [apply Hin; exact Hq|reflexivity].
   - exfalso. apply Hnd. apply (Permutation_NoDup (Permutation_map fst (sort_k_perm _))).
     apply adj_false_nodup; [apply sort_k_sorted|exact Ha].
 Qed.
 
-(* THEOREM (repaired variant): two siblings at the top level (the same works
-   in every group) that are equal up to recursive reordering and spelling are
-   reported at least once *)
-Lemma dup_complete_fixed l1 a l2 b l3 :
+Definition kind_of_tree (a : tree) : kind :=
+  match a with T _ => K_TAG_REPEATED | G _ => K_TAG_REPEATED_GROUP end.
+
+(* one level: two members of a list that are equal up to recursive reordering
+   and spelling are reported, with the kind that fits (tag / group) *)
+Lemma dup_complete_level l1 a l2 b l3 :
   let top := l1 ++ a :: l2 ++ b :: l3 in
-  forallb wft top = true -> csv a = csv b -> dup_issues_p Fx top <> [].
+  forallb wft top = true -> csv a = csv b -> In (kind_of_tree a) (dup_issues_p Fx top).
 Proof.
   intros top Hw Hab. unfold dup_issues_p, sorted_view, arrange. cbn [Fx mode_of m_canon].
   fold Fx. fold (psF top). unfold arrange_pairs at 1. fold (keyedF top).
@@ -360,16 +391,90 @@ Proof.
   destruct (is_vt (sv Fx a)) eqn:Hva.
   - assert (Hvb : is_vt (sv Fx b) = true).
     { rewrite is_vt_canon in *. fold (csv b). fold (csv a) in Hva. congruence. }
-    destruct (sorted_part_hit top f Hw (Hcase f Hva Hvb)) as (pre & v & w & post & E & Hv).
-    cbn [dup_p]. rewrite E. rewrite <- app_assoc. cbn [app].
+    destruct (sorted_part_hit top f Hw (Hcase f Hva Hvb)) as (pre & v & w & post & E & Hv & q & Hfq & Eq).
+    assert (Hk : kind_of_tree a = rep_kind w).
+    { destruct a; [|discriminate]. unfold f in Hfq. rewrite Eq in Hfq. destruct w; [reflexivity|discriminate]. }
+    rewrite Hk. cbn [dup_p]. rewrite E. rewrite <- app_assoc. cbn [app].
     apply dup_loop_p_hit. exact Hv.
   - assert (Hvb : is_vt (sv Fx b) = false).
     { rewrite is_vt_canon in *. fold (csv b). fold (csv a) in Hva. congruence. }
     assert (Hga : g (ckey (csv a), (print a, sv Fx a)) = true) by (unfold g; cbn [snd]; rewrite Hva; reflexivity).
     assert (Hgb : g (ckey (csv b), (print b, sv Fx b)) = true) by (unfold g; cbn [snd]; rewrite Hvb; reflexivity).
-    destruct (sorted_part_hit top g Hw (Hcase g Hga Hgb)) as (pre & v & w & post & E & Hv).
-    cbn [dup_p]. rewrite E. rewrite app_assoc.
+    destruct (sorted_part_hit top g Hw (Hcase g Hga Hgb)) as (pre & v & w & post & E & Hv & q & Hgq & Eq).
+    assert (Hk : kind_of_tree a = rep_kind w).
+    { destruct a; [discriminate|]. unfold g in Hgq. rewrite Eq in Hgq. destruct w; [discriminate|reflexivity]. }
+    rewrite Hk. cbn [dup_p]. rewrite E. rewrite app_assoc.
     apply dup_loop_p_hit. exact Hv.
+Qed.
+
+Lemma dup_complete_fixed l1 a l2 b l3 :
+  let top := l1 ++ a :: l2 ++ b :: l3 in
+  forallb wft top = true -> csv a = csv b -> dup_issues_p Fx top <> [].
+Proof.
+  intros top Hw Hab E. pose proof (dup_complete_level l1 a l2 b l3 Hw Hab) as H.
+  fold top in H. rewrite E in H. destruct H.
+Qed.
+
+(* ... at ANY depth: what is found inside a group is part of what is found for the annotation *)
+Fixpoint all_groups_t (t : tree) : list (list tree) :=
+  match t with T _ => [] | G l => l :: flat_map all_groups_t l end.
+(* the top level and every group below it *)
+Definition all_levels (top : list tree) : list (list tree) := top :: flat_map all_groups_t top.
+
+Lemma dup_p_sub_in m c vs k : In c vs -> In k (dup_p m c) -> In k (dup_p m (VL vs)).
+Proof.
+  intros Hc Hk. cbn [dup_p]. generalize (@None view) as prev.
+  induction vs as [|x vs IH]; intro prev; [destruct Hc|].
+  cbn [map dup_loop_p]. apply in_or_app. right. apply in_or_app.
+  destruct Hc as [E|Hc]; [subst x; left; exact Hk|right; apply IH; exact Hc].
+Qed.
+
+Lemma sv_in_sorted_view top t : In t top -> In (sv Fx t) (sorted_view Fx top).
+Proof.
+  intro H. unfold sorted_view. apply (Permutation_in _ (Permutation_sym (arrange_perm Fx _))).
+  rewrite map_map. cbn [snd]. apply in_map_iff. exists t. auto.
+Qed.
+
+Lemma sv_G l : sv Fx (G l) = VL (sorted_view Fx l).
+Proof. reflexivity. Qed.
+
+Lemma dup_in_sub t : forall g k, In g (all_groups_t t) ->
+  In k (dup_p Fx (VL (sorted_view Fx g))) -> In k (dup_p Fx (sv Fx t)).
+Proof.
+  induction t as [a|l IH] using tree_ind2; intros g k Hg Hk; [destruct Hg|].
+  cbn [all_groups_t] in Hg. destruct Hg as [E|Hg].
+  - subst g. rewrite sv_G. exact Hk.
+  - rewrite in_flat_map in Hg. destruct Hg as (c & Hc & Hgc).
+    rewrite sv_G. apply (dup_p_sub_in Fx (sv Fx c)); [apply sv_in_sorted_view; exact Hc|].
+    rewrite Forall_forall in IH. eapply IH; eauto.
+Qed.
+
+Lemma wft_levels top g : forallb wft top = true -> In g (all_levels top) -> forallb wft g = true.
+Proof.
+  intros Hw Hg. destruct Hg as [E|Hg]; [subst; exact Hw|].
+  rewrite in_flat_map in Hg. destruct Hg as (t & Ht & Hg).
+  rewrite forallb_forall in Hw. specialize (Hw t Ht). clear Ht. revert g Hg Hw.
+  induction t as [a|l IH] using tree_ind2; intros g Hg Hw; [destruct Hg|].
+  cbn [all_groups_t] in Hg. cbn [wft] in Hw. destruct Hg as [E|Hg]; [subst; exact Hw|].
+  rewrite in_flat_map in Hg. destruct Hg as (c & Hc & Hgc).
+  rewrite Forall_forall in IH. apply (IH c Hc g Hgc). rewrite forallb_forall in Hw. auto.
+Qed.
+
+(* THEOREM (the code as it is): two members of the top level or of ANY group, at any
+   depth, that are equal up to recursive reordering and spelling are reported -- as a
+   repeated tag if they are tags, as a repeated group if they are groups *)
+Lemma dup_complete_anywhere top g l1 a l2 b l3 :
+  forallb wft top = true -> In g (all_levels top) -> g = l1 ++ a :: l2 ++ b :: l3 ->
+  csv a = csv b -> In (kind_of_tree a) (dup_issues_p Fx top).
+Proof.
+  intros Hw Hg Eg Hab.
+  assert (Hwg : forallb wft g = true) by (eapply wft_levels; eauto).
+  assert (Hk : In (kind_of_tree a) (dup_issues_p Fx g)).
+  { subst g. apply dup_complete_level; assumption. }
+  destruct Hg as [E|Hg]; [subst; exact Hk|].
+  rewrite in_flat_map in Hg. destruct Hg as (t & Ht & Hgt).
+  unfold dup_issues_p. apply (dup_p_sub_in Fx (sv Fx t)); [apply sv_in_sorted_view; exact Ht|].
+  eapply dup_in_sub; eauto.
 Qed.
 
 (* siblings related by reordering have equal canonical forms *)
@@ -377,13 +482,14 @@ Lemma csv_perm t t' : PermTree t t' -> wft t = true -> csv t = csv t'.
 Proof. intros Hp Hw. exact (proj2 (proj1 csv_perm_mut t t' Hp Hw)). Qed.
 
 (* ------------------------------------------------------------------ *)
-(* the code as it is: refutations by concrete witnesses                *)
+(* RECORD of repaired defects: behaviour before fix commits 7597eca /  *)
+(* 2492808 / 3e47c8c (mode Orig), refuted by concrete witnesses        *)
 (* ------------------------------------------------------------------ *)
 
 Definition Orig : mode := mode_of false.
 (* tag equality folded and groups ordered by the text of their sorted form,
    but tags still ordered by the case-sensitive str(tag) *)
-Definition Half : mode := mkMode true false true.
+Definition Half : mode := mkMode true false true true.
 
 Definition s (x : list nat) : str := map N.of_nat x.
 (* a plain tag whose original text is its short form (values are lower-case here) *)
@@ -482,3 +588,19 @@ Proof.
   apply PF_skip; [|apply PermForest_refl].
   apply PT_group. apply PF_swap.
 Qed.
+
+(* since fix commit 3e47c8c: repeated groups that hold nothing but empty groups are reported
+   '(),()'   '(()),(())'   '((),(Red)),((Red),())' *)
+Lemma dup_total_on_empty_groups :
+  check_for_duplicate_groups Fx [G []; G []] = Ok [K_TAG_REPEATED_GROUP] /\
+  check_for_duplicate_groups Fx [G [G []]; G [G []]] = Ok [K_TAG_REPEATED_GROUP] /\
+  check_for_duplicate_groups Fx [G [G []; G [Red]]; G [G [Red]; G []]] = Ok [K_TAG_REPEATED_GROUP].
+Proof. vm_compute. auto. Qed.
+
+(* a repeat two levels down: Green,((Red,Blue),Azure-like filler,(Blue,Red)) *)
+Definition ex_deep : list tree := [Green; G [Green; G [G [Red; Blue]; Green; G [Blue; Red]]]].
+Lemma ex_deep_ok :
+  forallb wft ex_deep = true /\
+  In [G [Red; Blue]; Green; G [Blue; Red]] (all_levels ex_deep) /\
+  check_for_duplicate_groups Fx ex_deep = Ok [K_TAG_REPEATED_GROUP].
+Proof. vm_compute. repeat split; auto. Qed.
